@@ -369,3 +369,63 @@ Proof.
   - exfalso. apply HB. destruct w; cbn in HA |- *; auto.
   - destruct HA.
 Qed.
+
+(* ---------------- process passes the Token events through, in order ---------------- *)
+Fixpoint etoksn (L : list event) : list nat :=
+  match L with [] => [] | EToken _ n :: r => n :: etoksn r | _ :: r => etoksn r end.
+Fixpoint stoksn (st : list step) : list nat :=
+  match st with [] => [] | StToken _ n :: r => n :: stoksn r | _ :: r => stoksn r end.
+Lemma stoksn_app a b : stoksn (a ++ b) = stoksn a ++ stoksn b.
+Proof. induction a as [|x a IH]; cbn [app stoksn]; [reflexivity|]. destruct x; rewrite IH; reflexivity. Qed.
+Lemma stoksn_enters ks : stoksn (map StEnter ks) = [].
+Proof. induction ks as [|k ks IH]; cbn [map stoksn]; auto. Qed.
+Lemma etoksn_skipn_nth L : forall i e, nth_error L i = Some e ->
+  etoksn (skipn i L) = (match e with EToken _ n => [n] | _ => [] end) ++ etoksn (skipn (S i) L).
+Proof.
+  induction L as [|x L IH]; intros [|i] e H; cbn in H; try discriminate.
+  - injection H as ->. cbn [skipn etoksn]. destruct e; reflexivity.
+  - cbn [skipn]. apply (IH i e H).
+Qed.
+Lemma etoksn_skipn_set_nth' L : forall p k fp k0 fp0 j,
+  nth_error L p = Some (EStart k0 fp0) -> etoksn (skipn j (set_nth' L p (EStart k fp))) = etoksn (skipn j L).
+Proof.
+  induction L as [|e L IH]; intros [|p] k fp k0 fp0 [|j] H; cbn in H; try discriminate; cbn [set_nth' skipn].
+  - injection H as ->. reflexivity.
+  - reflexivity.
+  - cbn [etoksn]. specialize (IH p k fp k0 fp0 0 H). cbn [skipn] in IH. rewrite IH. reflexivity.
+  - apply (IH p k fp k0 fp0 j H).
+Qed.
+Lemma fp_chain_toks fuel : forall L idx fp acc kinds L',
+  fp_chain fuel L idx fp acc = Some (kinds, L') ->
+  length L' = length L /\ forall k, etoksn (skipn k L') = etoksn (skipn k L).
+Proof.
+  induction fuel as [|f IH]; intros L idx fp acc kinds L' H.
+  - destruct fp; cbn in H; [discriminate|]. injection H as _ <-. auto.
+  - destruct fp as [d|]; cbn [fp_chain] in H; [|injection H as _ <-; auto].
+    destruct (nth_error L (idx + d)) as [[k fp'| | |]|] eqn:E; try discriminate.
+    apply IH in H. destruct H as [H1 H2]. rewrite set_nth'_length in H1. split; [exact H1|].
+    intros k0. rewrite H2. eapply etoksn_skipn_set_nth'; eauto.
+Qed.
+Lemma process_loop_toks fuel : forall L i out st,
+  process_loop fuel L i out = Some st -> length L - i <= fuel ->
+  stoksn st = stoksn (rev out) ++ etoksn (skipn i L).
+Proof.
+  induction fuel as [|f IH]; intros L i out st H Hf.
+  - cbn in H. injection H as <-. rewrite skipn_all2 by lia. cbn. rewrite app_nil_r. reflexivity.
+  - cbn [process_loop] in H. destruct (nth_error L i) as [e|] eqn:E.
+    + pose proof (etoksn_skipn_nth L i e E) as Hs.
+      assert (i < length L) as Hi by (apply nth_error_Some; congruence).
+      destruct e as [k fp| |k n|].
+      * destruct (fp_chain (length L) L i fp [k]) as [[kinds L']|] eqn:Ec; [|discriminate].
+        apply fp_chain_toks in Ec. destruct Ec as [Hl Ht].
+        apply IH in H; [|lia]. rewrite H, Hs, Ht. cbn [app].
+        rewrite rev_app_distr, stoksn_app. rewrite rev_involutive.
+        rewrite stoksn_enters.
+        rewrite app_nil_r. reflexivity.
+      * apply IH in H; [|lia]. rewrite H, Hs. cbn [rev app]. rewrite stoksn_app. cbn. rewrite app_nil_r. reflexivity.
+      * apply IH in H; [|lia]. rewrite H, Hs. cbn [rev]. rewrite stoksn_app, <- app_assoc. reflexivity.
+      * apply IH in H; [|lia]. rewrite H, Hs. cbn [rev app]. rewrite stoksn_app. cbn. rewrite app_nil_r. reflexivity.
+    + injection H as <-. apply nth_error_None in E. rewrite skipn_all2 by lia. cbn. rewrite app_nil_r. reflexivity.
+Qed.
+Theorem process_toks L st : process L = Some st -> stoksn st = etoksn L.
+Proof. intros H. apply process_loop_toks in H; [|lia]. exact H. Qed.
